@@ -256,6 +256,42 @@ pub fn exps(m: &mut M, r: &mut Rng, n: u64) {
 
 fn powf_case(m: &mut M, r: &mut Rng) {
     // base x into r2, exponent y into r3, hint ln|x| into r4
+    if r.below(10) == 0 {
+        // sign rule far outside the accuracy range: huge integer exponents (every f64 integer >= 2^53 is even unless
+        // the low word says otherwise) under a negative base so close to -1 that the power stays finite
+        let j = r.range(40, 1000) as i32;
+        match r.below(3) {
+            0 => {
+                m.load(2, -1.0, 0.0);
+            }
+            1 => load_sum(m, 2, -1.0, -pow2(-j.min(100))),
+            _ => load_sum(m, 2, -1.0, pow2(-j.min(100))),
+        }
+        let k = r.range(53, 1000) as i32;
+        match r.below(4) {
+            0 | 1 => {
+                let s1 = sgn(r);
+                m.load(3, s1 * pow2(k), 0.0);
+            }
+            2 => {
+                let s1 = sgn(r);
+                let fr = r.frac52();
+                m.load(3, s1 * f64::from_bits((((k + 1023) as u64) << 52) | fr), 0.0);
+            }
+            _ => {
+                // parity (or not) in the low word
+                let mlo = r.range(0, (k - 54).min(80) as i64) as i32;
+                let odd = (2 * r.range(0, 7) + 1) as f64;
+                let s1 = sgn(r);
+                let s2 = sgn(r);
+                m.load(3, s1 * pow2(k.max(60)), s2 * odd * pow2(mlo.min(k.max(60) - 58)));
+            }
+        }
+        m.call("base", "abs", "inh", Some(5), &[A::R(2)]);
+        m.call("elem", "ln", "inh", Some(4), &[A::R(5)]);
+        m.call("elem", "powf", *r.pick(&["inh", "Float", "Pow_vv", "Pow_rr"]), Some(6), &[A::R(2), A::R(3), A::R(4)]);
+        return;
+    }
     match r.below(8) {
         0 => {
             let z = if r.coin() { 0.0 } else { -0.0 };
@@ -469,10 +505,11 @@ pub fn atrig(m: &mut M, r: &mut Rng, n: u64) {
                 load_sum(m, 0, b, if b.abs() == 1.0 { 0.0 } else { sgn(r) * pow2(-(r.range(54, 100) as i32)) * r.below(2) as f64 });
             }
             1 => {
+                // log-uniform in the distance 1 - |x| to the end points (powers of two and random mantissas)
                 let j = r.range(1, 100) as i32;
-                load_sum(m, 0, sgn(r), -sgn(r) * 0.0 + 0.0);
                 let s = sgn(r);
-                load_sum(m, 0, s, -s * pow2(-j));
+                let d = if r.coin() { pow2(-j) } else { pow2(-j) * (1.0 + (r.below(1u64 << 52) as f64) * pow2(-52)) };
+                load_sum(m, 0, s, -s * d);
             }
             2 => {
                 let e = r.range(-300, -2) as i32;
@@ -586,8 +623,10 @@ pub fn hyp(m: &mut M, r: &mut Rng, n: u64) {
         // acosh: 1 + 2^-j, generic, below 1
         match r.below(5) {
             0 => {
+                // log-uniform in the distance to the branch point x = 1 (full random mantissa)
                 let j = r.range(1, 58) as i32;
-                load_sum(m, 6, 1.0, pow2(-j) * (1.0 + r.below(8) as f64 / 8.0));
+                let u = if r.coin() { r.below(8) as f64 / 8.0 } else { (r.below(1u64 << 52) as f64) * pow2(-52) };
+                load_sum(m, 6, 1.0, pow2(-j) * (1.0 + u));
             }
             1 => {
                 m.load(6, *r.pick(&[1.0, 0.5, 0.0, -2.0]), 0.0);
@@ -601,9 +640,12 @@ pub fn hyp(m: &mut M, r: &mut Rng, n: u64) {
         // atanh: +-(1 - 2^-j), j <= 10, generic, |x| >= 1
         match r.below(5) {
             0 => {
-                let j = r.range(1, 10) as i32;
+                // log-uniform in the distance 1 - |x| to the singularities x = +-1 down to the range limit 2^-10:
+                // exact powers of two and full random mantissas, one binade at a time (round-robin)
+                let j = 1 + (r.tick() % 10) as i32;
                 let s = sgn(r);
-                load_sum(m, 6, s, -s * pow2(-j));
+                let d = if r.below(4) == 0 { pow2(-j) } else { pow2(-j) * (1.0 + (r.below(1u64 << 52) as f64) * pow2(-52)) };
+                load_sum(m, 6, s, -s * d.max(pow2(-10)));
             }
             1 => {
                 m.load(6, *r.pick(&[1.0, -1.0, 1.5, 0.0, -0.0]), 0.0);
@@ -617,6 +659,9 @@ pub fn hyp(m: &mut M, r: &mut Rng, n: u64) {
                 load_near(m, r, 6, h);
             }
         }
+        m.call("elem", "atanh", *r.pick(&SP2), Some(7), &[A::R(6)]);
+        // the mirrored argument (atanh is odd; an algebraic rewriting may cancel on one side only)
+        m.call("arith", "neg", "v", Some(6), &[A::R(6)]);
         m.call("elem", "atanh", *r.pick(&SP2), Some(7), &[A::R(6)]);
         let _ = i;
     }
@@ -641,6 +686,20 @@ pub fn angles(m: &mut M, r: &mut Rng, n: u64) {
     for c in ["INFINITY", "NEG_INFINITY", "MAX", "MIN", "MIN_POSITIVE"] {
         m.call("const", "const", "assoc", Some(1), &[A::S(c.into())]);
         m.call("base", "is_valid", "inh", None, &[A::R(1)]);
+    }
+    // MAX / MIN are the extreme valid values: nothing beside +-f64::MAX beyond their low words is accepted
+    // by the checked constructors or by the validity predicates
+    let maxlo = twofloat::TwoFloat::MAX.lo();
+    for (j, lo) in [next_up_mag(maxlo), maxlo * 2.0, pow2(970), pow2(971), 1e300, pow2(1000), f64::MAX, maxlo, next_down_mag(maxlo), 1.0, pow2(-1074)]
+        .iter()
+        .enumerate()
+    {
+        for s in [1.0, -1.0] {
+            let sp = if j % 2 == 0 { "tuple" } else { "array" };
+            m.call("load", "try_from", sp, Some(2), &[A::F(s * f64::MAX), A::F(s * lo)]);
+            m.call("base", "no_overlap", "fn", None, &[A::F(s * f64::MAX), A::F(s * lo)]);
+            m.call("load", "try_from", sp, Some(2), &[A::F(s * f64::MAX), A::F(-s * lo)]);
+        }
     }
     for i in 0..n {
         m.group("angle");
